@@ -500,3 +500,35 @@ func Nested(cap int64, f func()) (exceeded bool) {
 	f()
 	return
 }
+
+// Sink stands in for os.Stdout / os.Stderr inside instrumented parsers: what
+// is written is discarded and counted.
+type Sink struct{ name string }
+
+// Stdout and Stderr replace os.Stdout and os.Stderr in instrumented parsers.
+var (
+	Stdout = &Sink{name: "/dev/stdout"}
+	Stderr = &Sink{name: "/dev/stderr"}
+)
+
+// Write discards p.
+//
+//go:norace
+func (s *Sink) Write(p []byte) (int, error) { printed++; return len(p), nil }
+
+// WriteString discards str.
+//
+//go:norace
+func (s *Sink) WriteString(str string) (int, error) { printed++; return len(str), nil }
+
+// Sync mirrors (*os.File).Sync.
+func (s *Sink) Sync() error { return nil }
+
+// Close mirrors (*os.File).Close.
+func (s *Sink) Close() error { return nil }
+
+// Name mirrors (*os.File).Name.
+func (s *Sink) Name() string { return s.name }
+
+// Fd mirrors (*os.File).Fd.
+func (s *Sink) Fd() uintptr { return 1 }
